@@ -575,7 +575,52 @@ def c13(tier, seed):
     return out
 
 
+# ------------------------------------------------------------------------------------------------
+# C15
+# ------------------------------------------------------------------------------------------------
+
+def c15(tier, seed):
+    out = []
+    kinds = "01v!"
+    pats_q = [(6, "v!v"), (5, "vv1"), (4, "!v0"), (3, "1!v"), (2, "00v"), (2, "vv!"), (1, "v!1"), (0, "011")]
+    pats_t = [(7, "v!v"), (8, "!!v"), (6, "111"), (4, "vvv"), (3, "0v0"), (0, "000")]
+    for (n, pat) in pats_q + pats_t:
+        ks = [kinds.index(c) for c in pat]
+        q = (n, pat) in pats_q
+        name = "c15_ops_n%d_%s" % (n, pat.replace("!", "i"))
+        lits = [k for k in ks if k >= 2]
+        can_vary = len(lits) > 0 and n >= 1
+        base = True  # value of !(e0^e1)^e2 with all literals... decided by the solver; covers below only when both polarities are possible
+        covers = {"reached": "SATISFIED"}
+        if can_vary and n >= 2:
+            covers["evaluates to true"] = "SATISFIED"
+            covers["evaluates to false"] = "SATISFIED"
+        out.append(spec("verif_c15", "c15.rs", "c15_ops", name, [n] + ks, (1 << n) + 3,
+                        tier="quick" if q else "thorough", n=n, fam="Esop", timeout=2400, mem=2 if n >= 6 else 1,
+                        covers=covers,
+                        what="Esop n=%d, operands of kinds %s (0 zero, 1 one, v = x_i, ! = !x_i, symbolic i): ^ (4 forms) and ! (2 forms) denote XOR / complement, Lut::from tabulates the same function, is_zero/is_one only for the respective constant" % (n, pat)))
+    for n in (0, 1, 2, 3):
+        fam = "d%d" % n
+        for val in (False, True):
+            if n == 3 and val:
+                continue
+            out.append(spec("verif_c15", "c15.rs", "c15_conv", "c15_conv_%d%s" % (n, "_value" if val else ""),
+                            [fam, "true" if val else "false"], max(8, (1 << n)) + 3,
+                            tier="quick" if n <= 1 or (n == 2 and not val) else "thorough", n=n, fam="Lut,Esop", timeout=3600,
+                            mem={0: 1, 1: 1, 2: 6, 3: 30}[n], mem_limit_gb=14 if n <= 1 else 44, optional=(n == 3),
+                            covers={"reached": "SATISFIED", "monomial present": "SATISFIED", "monomial absent": "SATISFIED"},
+                            what="Esop::from(&Lut) n=%d, symbolic f and symbolic monomial S: the cube of S occurs exactly ANF(f)[S] times, all cubes are all-positive over variables < n%s" % (n, "; value(m) == f(m); is_zero/is_one only for constants" if val else "")))
+    for n in (0, 1, 2):
+        fam = "d%d" % n
+        out.append(spec("verif_c15", "c15.rs", "c15_conv_back", "c15_conv_back_%d" % n, [fam], max(8, (1 << n)) + 3,
+                        tier="quick" if n <= 1 else "thorough", n=n, fam="Lut,Esop", timeout=3600,
+                        mem={0: 1, 1: 2, 2: 12}[n], mem_limit_gb=14 if n <= 1 else 44, optional=(n == 2),
+                        what="Lut::from(&Esop::from(&f)) == f for symbolic f, n=%d" % n))
+    return out
+
+
 PROPS = {
+    "C15": c15,
     "C13": c13,
     "C12": c12,
     "C10": c10,
